@@ -92,6 +92,21 @@ func (r *Run) Inconclusive(why string) { r.mu.Lock(); r.inconcl = append(r.incon
 func (r *Run) IsRace() bool            { return r.Variant == "race" || r.Variant == "yield" }
 func (r *Run) Replaying() bool         { return os.Getenv("VERIF_REPLAY") != "" }
 
+// visit decides whether item idx of an enumerated product is part of this run's 1/stride sample.
+// A multiplicative hash of (idx, seed) is used instead of idx%stride: plain strides alias with the
+// mixed-radix structure of the products (with stride 9 one request-header kind of the configuration
+// product was never visited for some seeds - found through seeded change C09-c).
+func (r *Run) visit(idx, stride int) bool {
+	if stride <= 1 {
+		return true
+	}
+	x := uint64(idx)*0x9E3779B97F4A7C15 ^ (r.Seed+1)*0xD6E8FEB86659FD93
+	x ^= x >> 32
+	x *= 0xD6E8FEB86659FD93
+	x ^= x >> 29
+	return x%uint64(stride) == 0
+}
+
 // pick returns q in the quick tier and th in the thorough tier.
 func pick[T any](r *Run, q, th T) T {
 	if r.Thor {
